@@ -266,6 +266,16 @@ TRYINTO_BARE_FIELD = [
     Var("Three", "three", "tuple", ["W", "V", "W"], field_bare=(1,), field_ignored=(2,)),
 ]
 
+# the ignored field sits at a different position in variants of one arity and one target tuple (round 13)
+TRYINTO_IGNORE_POSITIONS = [
+    Var("Tagged", "tagged", "tuple", ["V", "V"], field_ignored=(0,)),
+    Var("Stamped", "stamped", "tuple", ["V", "V"], field_ignored=(1,)),
+    Var("Lone", "lone", "tuple", ["V"]),
+    Var("Mid", "mid", "named", ["V", "V", "V"], field_ignored=(0,)),
+    Var("End", "end", "named", ["V", "V", "V"], field_ignored=(2,)),
+    Var("Centre", "centre", "tuple", ["V", "V", "V"], field_ignored=(1,)),
+]
+
 # variants whose fields are ALL ignored belong to the `()` group, next to unit and explicitly empty variants
 TRYINTO_ALL_IGNORED = [
     Var("Unit", "unit", "unit", []),
@@ -525,6 +535,7 @@ def shapes(tier):
            try_into_shape("c11_try_into_small", TRYINTO_SMALL, quick=False),
            try_into_shape("c11_try_into_all_fields_ignored", TRYINTO_ALL_IGNORED),
            try_into_shape("c11_try_into_bare_field_attr", TRYINTO_BARE_FIELD),
+           try_into_shape("c11_try_into_ignore_positions", TRYINTO_IGNORE_POSITIONS),
            generic_shape()] + selection_shapes()
     # the whole grid costs ~20 s: quick and thorough run all of it
     return out
